@@ -548,7 +548,7 @@ impl Check for C13 {
         ]
     }
     fn components(&self) -> Value {
-        json!({"built-in tools (read/write/ls/grep/apply_patch/bash), tool runner, workspace checkpoint hook, rip-workspace": "real", "file system": "real tmpfs observed through the libc seam (monitor mode)", "child processes": "real bash", "scheduling/clock": "not involved"})
+        json!({"built-in tools (read/write/ls/grep/apply_patch/bash), tool runner, workspace checkpoint hook, rip-workspace": "real", "file system": "real tmpfs observed through the libc seam (monitor mode)", "child processes": "real bash", "background tasks (task working directories)": "real: ripd router (POST /tasks, status, output), task engine, pipes runner on a tokio runtime in real time; requests enter through tower oneshot (no HTTP listener)", "scheduling/clock": "not involved"})
     }
     fn extra_coverage(&self, c: &BTreeMap<String, u64>) -> Value {
         let per: BTreeMap<&String, &u64> = c.iter().filter(|(k, _)| k.starts_with("requests:")).collect();
